@@ -283,6 +283,25 @@ func VerifCore_CommitDecide() {
 		sym.Assert(mb.Payload.Phase == DECIDE_PHASE && mb.Payload.Value.Eq(input) && mb.Justification != nil, "DECIDE for the committed value with a justification")
 	case CONVERGE_PHASE:
 		sym.Cover("next-round")
+		// COMMITs of round 0 that were still under way arrive late: if they
+		// complete a strong quorum for the value, the participant decides from
+		// the later round (and its progress does not move backwards: monitor R3)
+		for _, idx := range []int{0, 1, verifByzIdx} {
+			if e.phase() == CONVERGE_PHASE && sym.Bool("late-commit-for-the-value") {
+				if m := e.message(idx, 0, COMMIT_PHASE, input, 3, 0); m != nil {
+					e.deliver(m)
+				}
+			}
+		}
+		forP, _ := e.tally(0, COMMIT_PHASE, input)
+		if IsStrongQuorum(forP, e.total()) {
+			sym.Cover("late-commit-decides-from-a-later-round")
+			sym.Assert(e.phase() == DECIDE_PHASE, "a COMMIT quorum completed late still leads to DECIDE")
+			mb := e.lastBroadcast()
+			sym.Assert(mb.Payload.Phase == DECIDE_PHASE && mb.Payload.Value.Eq(input) && mb.Justification != nil, "DECIDE for the committed value with a justification")
+		} else {
+			sym.Assert(e.phase() == CONVERGE_PHASE, "without a COMMIT quorum it stays in the new round")
+		}
 		return
 	default:
 		sym.Cover("commit-waits")
@@ -306,6 +325,18 @@ func VerifCore_CommitDecide() {
 			sym.Assert(!e.deliver(f), "a forged message is rejected")
 			sym.Assert(!e.deliver(f), "a forged message is rejected again when it is sent a second time")
 			sym.Cover("forged")
+			continue
+		}
+		if idx == verifByzIdx && sym.Bool("byzantine-decide-with-made-up-justification") {
+			// the Byzantine member signs, with its own key, a DECIDE for a fork whose
+			// "strong COMMIT quorum" justification is made up (right shape, garbage
+			// aggregate), and sends it twice
+			j := VerifJustification(e.c, verifInstance, 0, COMMIT_PHASE, VerifX(4), 0, 1, verifByzIdx)
+			j.Signature = []byte("made-up-aggregate-made-up-aggregate")
+			f := VerifMessage(e.c, idx, verifInstance, 0, DECIDE_PHASE, VerifX(4), j)
+			sym.Assert(!e.deliver(f), "a message with a made-up justification is rejected")
+			sym.Assert(!e.deliver(f), "a message with a made-up justification is rejected again when it is sent a second time")
+			sym.Cover("made-up-justification")
 			continue
 		}
 		if sym.Bool("decide-vote") {
